@@ -5,7 +5,7 @@ CONSTANTS MaxPre = 2 MaxN = 4
   Posts <- PostsSmall
   FlowKinds = {"ctx"}
   Drivers = {"run", "fill", "persist", "split"}
-  Places = {"alone", "middle"}
+  Places = {"afterstop"}
   StopFlag = "per_branch"
   CopyMode = "per_branch"
   Bufs <- BufQuick
